@@ -107,8 +107,8 @@ PROPS["C04"] = dict(
 )
 PROPS["C18"] = dict(
     title="table lifecycle and metadata stay coherent",
-    quick=[G("M_LIFE", cfg="M_LIFE_a"), G("M_LIFE", cfg="M_LIFE_b")],
-    thorough=[G("M_LIFE", cfg="M_LIFE_t")],
+    quick=[G("M_LIFE", cfg="M_LIFE_a"), G("M_LIFE", cfg="M_LIFE_b"), H(30)],
+    thorough=[G("M_LIFE", cfg="M_LIFE_t"), H(600, 60)],
     own=[parts("Outcome", "ErrClass", "Data", "Base", "Index", "IdxCount", "IdxDesc", "Desc", "Catalog", "NoCrash")],
     design_ref="DESIGN.md 6 C18",
     level_text="Every interleaving of create (helper and full CreateTable, valid and invalid configurations, both billing modes, global and "
@@ -142,9 +142,9 @@ PROPS["C19"] = dict(
 )
 PROPS["C17"] = dict(
     title="the SDK v1 and SDK v2 clients are behaviourally equivalent",
-    quick=[G("M_MODE"), G("M_LIFE", cfg="M_LIFE_b"), G("M_IDX"), G("M_BATCH", cfg="M_BGET"), G("M_NATIVE", cfg="M_NATIVE_pre"), H(30)],
+    quick=[G("M_MODE"), G("M_LIFE", cfg="M_LIFE_b"), G("M_IDX"), G("M_BATCH", cfg="M_BGET"), G("M_NATIVE", cfg="M_NATIVE_pre"), G("M_KC"), H(30)],
     thorough=[G("M_MODE", cfg="M_MODE_t"), G("M_LIFE", cfg="M_LIFE_t"), G("M_IDX", cfg="M_IDX_t"), G("M_BATCH", cfg="M_BGET"),
-              G("M_C01a"), G("M_COND"), G("M_FAIL"), G("M_READ"), G("M_READ", cfg="M_WALK"), H(400, 60)],
+              G("M_C01a"), G("M_COND"), G("M_FAIL"), G("M_READ"), G("M_READ", cfg="M_WALK"), G("M_KC"), H(400, 60)],
     own=[SDK],
     design_ref="DESIGN.md 6 C17",
     level_text="The same operation sequences - every transition of the lifecycle, failure-mode, index and batch models (thorough: of all "
@@ -178,8 +178,10 @@ PROPS["C07"] = dict(
 )
 PROPS["C09"] = dict(
     title="the expression front end is total and strict",
-    quick=[L("M_TOK", cfg="M_TOK_cond"), L("M_TOK", cfg="M_TOK_upd"), dict(kind="R", gen="strings", n=3000, maxlen=600)],
-    thorough=[L("M_TOK", cfg="M_TOK_cond_t"), L("M_TOK", cfg="M_TOK_upd_t"), dict(kind="R", gen="strings", n=6000, maxlen=2048)],
+    quick=[L("M_TOK", cfg="M_TOK_cond"), L("M_TOK", cfg="M_TOK_upd"), L("M_SENT", cfg="M_SENT_cond"), L("M_SENT", cfg="M_SENT_upd"),
+           dict(kind="R", gen="strings", n=3000, maxlen=600)],
+    thorough=[L("M_TOK", cfg="M_TOK_cond_t"), L("M_TOK", cfg="M_TOK_upd_t"), L("M_SENT", cfg="M_SENT_cond"), L("M_SENT", cfg="M_SENT_upd"),
+              dict(kind="R", gen="strings", n=6000, maxlen=2048)],
     own=[labparts("NoCrash", "Accepted", "Placeholders", "Reserved", "Outcome", "Result", "Modified")],
     design_ref="DESIGN.md 6 C09",
     level_text="TLC spells every string of up to 3 (thorough: 4) tokens over a 20-token condition alphabet and a 17-token update alphabet "
@@ -202,8 +204,8 @@ PROPS["C16"] = dict(
 )
 PROPS["C13"] = dict(
     title="primary keys identify items faithfully and are enforced",
-    quick=[G("M_KEYS", cfg="M_KEYS_S"), T("M_NUMKEY")],
-    thorough=[G("M_KEYS", cfg="M_KEYS_S_t"), G("M_KEYS", cfg="M_KEYS_B"), T("M_NUMKEY")],
+    quick=[G("M_KEYS", cfg="M_KEYS_S"), T("M_NUMKEY"), H(20)],
+    thorough=[G("M_KEYS", cfg="M_KEYS_S_t"), G("M_KEYS", cfg="M_KEYS_B"), T("M_NUMKEY"), H(300, 60)],
     own=[parts("Outcome", "ErrClass", "Data", "Base", "Desc", "NoCrash")],
     design_ref="DESIGN.md 6 C13",
     level_text="Hash+range keys (string and binary) over byte alphabets built to collide under separator-joined encodings, stored at most 2 "
